@@ -134,9 +134,10 @@ def clearUnused (b : BitSet) : Option BitSet :=
   | none => none
   | some w => some { b with words := b.words.set (b.size / 64) (w &&& mask (b.size % 64)) }
 
-/-- allocation part shared by `_resize` and `copy_from`: returns (arena, data, words (old copied: `keep` words), capacity) -/
-def realloc (a : State) (b : BitSet) (minCapBits keep : Nat) : State × Option (Loc × Words × Nat) :=
-  match allocReusable a (minCapBits / 8) with
+/-- the body of `realloc` with the allocator's answer as a parameter (kept separate so that proofs can unfold
+`realloc` without making the kernel evaluate the allocator) -/
+def reallocWith (r : State × Option Loc × Nat) (b : BitSet) (keep : Nat) : State × Option (Loc × Words × Nat) :=
+  match r with
   | (a1, none, _) => (a1, none)
   | (a1, some p, allocated) =>
     let capBits := allocated * 8
@@ -145,6 +146,10 @@ def realloc (a : State) (b : BitSet) (minCapBits keep : Nat) : State × Option (
       | some old => freeReusable a1 old (b.cap / 8)
       | none => a1
     (a2, some (p, nw, capBits % u32))
+
+/-- allocation part shared by `_resize` and `copy_from`: returns (arena, data, words (old copied: `keep` words), capacity) -/
+def realloc (a : State) (b : BitSet) (minCapBits keep : Nat) : State × Option (Loc × Words × Nat) :=
+  reallocWith (allocReusable a (minCapBits / 8)) b keep
 
 def fillWords (ws : Words) (i stop : Nat) (pattern : BitVec 64) : Option Words :=
   if stop ≤ ws.length then some (ws.take i ++ List.replicate (stop - i) pattern ++ ws.drop (max i stop)) else none
